@@ -30,7 +30,7 @@ func (c *SurnameListPage) WriteHTMLTo(w io.Writer) (int64, error) {
 		core.NewTableHead("Surname", "Number of Individuals"),
 	}
 
-	for _, surname := range getSurnames(c.document).Strings() {
+	for _, surname := range getSurnames(c.document, c.options.LivingVisibility).Strings() {
 		table = append(table, NewSurnameInList(c.document, surname))
 	}
 
